@@ -112,6 +112,8 @@ def run(check):
         items.append((case, sem, g))
     stats = {"max_hwm": 0, "hwm_equal_parallelism": 0, "out_of_order_runs": 0, "success_results": 0, "failure_results": 0, "cancelled_runs": 0}
     with harness.Runner() as rn:
+        if not rn.hang_oracle_works():
+            check.fail_broken("the hang oracle (Go runtime deadlock report) does not fire in this build")
         out = rn.run_cases([c for c, _s, _g in items], per_case_timeout=90)
     by_id = {c["id"]: (c, s, g) for c, s, g in items}
     for cid in sorted(out):
